@@ -41,19 +41,22 @@ def header(eng=None, **kw):
     return Rec(**kw)
 
 
-def h16a_sizes(h1, w1, border, query_first, set_h, new_h, cycles):
+def h16a_sizes(h1, w1, border, query_first, set_h, new_h, cycles, nrows):
     """stored row heights / column widths come back equal after 1..3 save/reopen cycles, whether or not they were queried
     before saving; a height set through the API is the one stored"""
     assume(1 <= h1 <= 10000 and 1 <= w1 <= 10000 and 1 <= new_h <= 10000)
-    data = [[FakeCell(0.0), FakeCell(0.0)], [FakeCell(border), FakeCell(0.0)]]
-    rows = [Rec(index=0, numberOfCells=2, size=0.0, hidingState=0), Rec(index=1, numberOfCells=2, size=float(h1), hidingState=0)]
+    last = nrows - 1                      # the row with the custom height (beyond the first tile when nrows > 256)
+    plain = [FakeCell(0.0), FakeCell(0.0)]
+    data = [plain for _ in range(last)] + [[FakeCell(border), FakeCell(0.0)]]
+    rows = [Rec(index=r, numberOfCells=2, size=0.0, hidingState=0) for r in range(last)]
+    rows.append(Rec(index=last, numberOfCells=2, size=float(h1), hidingState=0))
     cols = [Rec(index=0, numberOfCells=2, size=float(w1), hidingState=0), Rec(index=1, numberOfCells=2, size=0.0, hidingState=0)]
     m = SizeModel(rows, cols, data)
     first_h = None
     if query_first:
-        first_h = m.row_height(7, 1)
+        first_h = m.row_height(7, last)
     if set_h:
-        m.row_height(7, 1, new_h)
+        m.row_height(7, last, new_h)
     want_h = new_h if set_h else (first_h if query_first else None)
     want_w = None
     for _ in range(cycles):
@@ -61,7 +64,7 @@ def h16a_sizes(h1, w1, border, query_first, set_h, new_h, cycles):
         m.recalculate_column_headers(7, data)
         # reopen: a fresh model over the written header buckets
         m = SizeModel(m.objects[30].headers, m.objects[31].headers, data)
-        got_h = m.row_height(7, 1)
+        got_h = m.row_height(7, last)
         got_w = m.col_width(7, 0)
         if want_h is None:
             want_h = got_h          # never queried before: the first value seen after reopening is the reference
@@ -70,6 +73,10 @@ def h16a_sizes(h1, w1, border, query_first, set_h, new_h, cycles):
         assert got_h == want_h
         assert got_w == want_w
         assert m.row_height(7, 0) == 20 and m.col_width(7, 1) == 98      # defaults stay defaults
+        hs = m.objects[30].headers
+        assert len(hs) == nrows
+        for r in range(nrows):
+            assert hs[r].index == r                                      # one header record per row, at its own index
     if border == 0.0:
         assert got_h == (new_h if set_h else h1)
         assert got_w == w1
@@ -95,9 +102,9 @@ def h16b_header_counts(n, R, C, rows):
 HARNESSES = [
     Harness("H16a", h16a_sizes,
             dict(h1=BVDom(14), w1=BVDom(14), border=Cases([0.0, 1.0, 3.0]), query_first=BoolDom(), set_h=BoolDom(), new_h=BVDom(14),
-                 cycles=Cases([1, 2, 3])),
+                 cycles=Cases([1, 2, 3]), nrows=Cases([2, 258])),
             bounds="stored height/width: every integer number of points 1..10000 (symbolic); border widths {0, 1, 3}; queried or "
-                   "not before saving; height set through the API or not; 1..3 save/reopen cycles",
+                   "not before saving; height set through the API or not; 1..3 save/reopen cycles; the sized row is the last of 2 or of 258 rows (second tile)",
             stubs=["object store and header records = attribute bags; Header constructor = attribute bag"],
             outside=["names, captions, visibility, coordinates (protobuf attribute pass-through and I/O)", "non-integral stored sizes"],
             models={TSTArchives.HeaderStorageBucket.Header: header}),
